@@ -1,0 +1,22 @@
+//go:build verif
+
+// Contract for the proof builder of the streaming Merkle tree (comment-only). Ownership: Prove does not modify the
+// tree (its documentation) and the proof set it returns is a slice of its own - it does not share its backing array
+// with the proof set the tree keeps, so nothing the tree does later (pushes append to that slice) can change a proof
+// that was handed out. The walk over the linked list of subtrees reads through loop-carried pointers (arbitrary
+// subtrees at the head of an arbitrary iteration); hashing is an opaque call.
+
+package merkletree
+
+//@ func Tree.Prove
+//@ option opaque-calls
+//@ option nomerge
+//@ option panics-allowed
+//@ option owned-loop-slices
+//@ loop 0
+//@ + invariant[current] !isnil(current)
+//@ loop 1
+//@ + invariant[running] true
+//@ ensures[own-proof] fresh(result1)
+//@ modifies nothing
+//@ end
